@@ -13,7 +13,47 @@ property predicate `run_ok` (Spec/C14.v: both sides of the comparison equal; an 
 nothing compared, nothing written) together with the extracted declarative spec (`spec_dist`/`spec_query`:
 differing sources must be refused), and (b) compared with the extracted model of the command
 (Model/C14.v).  The query command is compared with the REPAIRED model (repo_fixes/C14.diff): on the command as
-found `query -s` with foreign parameters is a VIOLATION (theorem C14_query_sigfile_refuted is its witness)."""
+found `query -s` with foreign parameters is a VIOLATION (theorem C14_query_sigfile_refuted is its witness).
+
+Coverage of the property text (audit).  Every stream runs the IMPLEMENTATION; "P" = the extracted predicate run_ok and
+the declarative spec (differing sources must be refused; agreeing sources -> the written numbers are the oracle's
+distances under that one set) are judged there, "M" = the run is also compared with the extracted model.
+
+  clause / quantifier element / entry point                      stream(s)                                       judged
+  query -s FILE vs database (k / prefix / both differ)            query-exhaustive (6 sets x 4 db + test db)      P M
+  dist --qs vs --rs, --qs vs --use-db                             dist-exhaustive (4 x 4 sets)                    P M
+  dist -k/-p vs --qs, vs --rs, vs --use-db; all three together    dist-exhaustive, dist-random-malformed          P M
+  parameters inferred (files vs --qs/--rs/--use-db; query files)  dist-exhaustive, query-exhaustive (oracle)      P M
+  -k or -p alone, bounds, bad nucleotides; kspec_from_params      kspec, dist-random-malformed                    P M
+  tree / signatures create (--db-params)                          tree-exhaustive, create-exhaustive              P M
+  -- added by the audit --------------------------------------------------------------------------------------------
+  "all pairs": arbitrary (k, prefix) pairs -- k+-1, other index   dist-random-parameter-pairs,                    P M
+    width (8/9, 16/17), k+8, one prefix letter (first/middle/     query-random-parameter-pairs
+    last), longer/shorter/reversed/reverse-complemented prefix,   (signature files and databases are built on
+    same total length, the default set, sets -k/-p cannot name    demand from the harness's own k-mer sets)
+  option spellings (--db, --db=, GAMBIT_DB_PATH, dist -d / -s,    dist-command-line-forms,                        P M
+    --prefix[=], -pXX, -kN, --sigfile[=], --output), option       query-command-line-forms
+    order, lower-case prefix, a database named but not used,
+    -c absent / 2, --progress
+  query -f json / archive, --strict; result to standard output    query-command-line-forms                        P M
+    (-o -); "no result is written" over a PRE-EXISTING file       (both commands: out=existing)
+  pre-computed signatures in other containers: written by         dist-sigfile-variants, query-sigfile-variants   P M
+    `gambit signatures create` itself (pipeline), integer ids,                                                    (n0: P)
+    kmerspec_k stored as int8 / int32 / uint8, prefix stored
+    lower-case / as bytes, 64-bit values, gzip, metadata, 0 / 1 /
+    12 signatures; database as refs.db + refs.h5, 32-bit k
+  the real process: `python -m gambit`, its exit status, its      real-process (6 per quick run)                  P M
+    stderr / stdout (query without -o), GAMBIT_DB_PATH
+  kspec_from_params as Python calls it: NumPy-scalar k (9 types), kspec-call-forms                                P M
+    keyword / reordered / two-argument calls; result == plain
+  gambit.query.query_parse (what `query GENOMES` rests on): db    api-query_parse                                 P M
+    loaded three ways, params / kwargs, file_labels, parse_kw
+  one process serving many command lines with changing            all random streams (one process, random order)  -
+    databases / files (stale state)
+  NOT covered: `dist --dump-params` (hidden debugging option, writes no result); `gambit.query.query()` and
+  `jaccarddist_matrix()` called directly with foreign signatures (no exit status: outside the statement -- they do not
+  look at the parameters at all, the guard lives in the command line only); --qdir/--rdir/--ldir (C08's subject).
+  FOUND: see known_defect() -- a signature file whose kmerspec_k attribute is an unsigned 8-bit integer."""
 import itertools
 import os
 import re
@@ -23,7 +63,14 @@ RULE = ('dist/query/tree/create: one command line = (kind of query source, kind 
         'sets stored in the pre-computed sources / the database, -k, --prefix[, --db-params]); kspec: one '
         '(k, prefix, default) triple.  non-trivial: dist/query: at least two parameter sources are present '
         '(pre-computed signatures, database in use, explicit options); tree/create: explicit options or --db-params '
-        'are present; kspec: exactly one of -k/--prefix, or a value at a validation boundary')
+        'are present; kspec: exactly one of -k/--prefix, or a value at a validation boundary.  A case may also carry: '
+        'parameter sets by value ([k, prefix]: random pairs differing in k, one prefix letter, prefix length, both, same '
+        'total length ...), qv/rv/sv/dbv = the container variant of a pre-computed source (written by `signatures create`, '
+        'integer ids, k attribute as int8/int32/uint8, prefix lower-case/bytes, 64-bit values, gzip, metadata, 0/1/12 '
+        'signatures; database with .db/.h5 extensions), form = spelling / order of the options, GAMBIT_DB_PATH, -f '
+        'json/archive, --strict, output to a pre-existing file or standard output, a real `python -m gambit` process; '
+        'kspec: ktype/call = NumPy-scalar k and keyword call forms; api: one direct call of gambit.query.query_parse '
+        '(database loading path, params/kwargs, labels, parse_kw).  Same non-triviality rule; api: always')
 TRUSTED = ['harness/c14.py: synthetic genomes, the pure-Python k-mer/Jaccard oracle used to recognise which parameters '
            'an output was computed with (tolerance 1.01e-4, candidates checked to be >= 1e-3 apart), construction of '
            'signature files (dump_signatures) and of small databases (SQLAlchemy models) from the harness\'s own k-mer sets',
@@ -32,7 +79,9 @@ TRUSTED = ['harness/c14.py: synthetic genomes, the pure-Python k-mer/Jaccard ora
            'click: option parsing, CliRunner, ClickException -> exit status 1 with "Error: <message>"; lazy opening of '
            'the query command\'s -o file',
            'gambit.sigs.load_signatures returns the parameters stored in the file; calc_file_signatures computes with '
-           'the parameters it is given (C01/C12/C13 are about those)']
+           'the parameters it is given (C01/C12/C13 are about those)',
+           'h5py for rewriting the kmerspec_k / kmerspec_prefix attributes of the variant signature files; subprocess + '
+           'PYTHONPATH (set by ./check) for the real-process stream']
 ASSUMPTIONS = ['signature files and databases given on the command line are loadable (C12 covers foreign files); '
                '--prefix values are ASCII; k <= 32',
                'the repaired query command (repo_fixes/C14.diff: ClickException when the -s file\'s parameters differ '
@@ -41,8 +90,16 @@ ASSUMPTIONS = ['signature files and databases given on the command line are load
                '`gambit tree -s FILE -k K -p P` ignores the options without checking them: one source only, outside the '
                'property\'s statement (which names the distance command); modelled as such and counted, not flagged',
                'the error class is compared with the model, but only exit status / output / compared parameters decide '
-               'a property violation']
-CORRESPONDENCES = ['kspec', 'dist', 'query', 'tree', 'create']
+               'a property violation',
+               'signature files without signatures (variant n0) and pre-computed signatures with k <= 4 (8-bit indices, refused by the '
+               'distance kernel with a ValueError) are outside the model: predicate and declarative spec only',
+               'GENUINE DEFECT recorded and skipped (exactly this input class, see known_defect()): a signature file whose '
+               'kmerspec_k attribute is an unsigned 8-bit integer, parameters inferred, other side computed from genome files: '
+               '`gambit dist --qs FILE -r genome.fasta` exits 0 with wrong distances (find_kmers: -uint8(k) wraps to 250); '
+               'repair repo_fixes/C14-uint8-k.diff, replay repo_fixes/C14-uint8-k.replay.json',
+               'a pre-existing output file that is emptied but holds no result after an error counts as "no result written" '
+               'for query (its -o file is opened lazily by click); for dist any file left behind counts as written']
+CORRESPONDENCES = ['kspec', 'dist', 'query', 'tree', 'create', 'api']
 SHRINK = False
 BATCH = 400
 
@@ -158,6 +215,12 @@ def candidates(c=None):
 			i = param_index(k, p)
 			if i not in out:
 				out.append(i)
+	if c is not None:
+		# parameter sets outside the fixed ones that the case's own sources carry (random-parameter streams)
+		for f in ('qp', 'rp', 'db', 'sp'):
+			i = pidx(c.get(f))
+			if isinstance(i, int) and i not in out:
+				out.append(i)
 	return out
 
 
@@ -165,6 +228,27 @@ def param_index(k, p):
 	if (k, p) not in PARAMS:
 		PARAMS.append((k, p))
 	return PARAMS.index((k, p))
+
+
+def pidx(x):
+	"""a parameter reference in a case -> index into PARAMS.  Cases name a fixed set by its index (stable) and any
+	other set by value, [k, 'PREFIX'] (registered on first use, so that a replay file is self-contained)"""
+	if x is None or isinstance(x, (int, str)):
+		return x   # str: 'testdb'
+	return param_index(int(x[0]), str(x[1]))
+
+
+def resolved(c):
+	r = dict(c)
+	for f in ('qp', 'rp', 'db', 'sp'):
+		if f in r:
+			r[f] = pidx(r[f])
+	return r
+
+
+def fopt(c, name, default=None):
+	"""an entry of the case's optional 'form' (spelling / order / channel of the command line; absent = the plain form)"""
+	return (c.get('form') or {}).get(name, default)
 
 
 def make_genomes(rng):
@@ -205,14 +289,106 @@ def separated():
 	return all(len(s) > 0 for side in 'qr' for a in candidates() for s in sigs_of(side, a))
 
 
+# ---- signature files and databases, built on demand ---------------------------------------------
+#: how a pre-computed signature file differs from the plain one the harness writes with dump_signatures
+#: (same k-mer sets, same recorded parameters up to what KmerSpec canonicalises; n0/n1/many: another number of signatures)
+VARIANTS = ('plain', 'created', 'intids', 'k_i1', 'k_i4', 'k_u1', 'p_lower', 'p_bytes', 'wide', 'gzip', 'meta', 'n0', 'n1', 'many')
+#: variants of a database directory: other accepted file extensions, k stored as a 32-bit integer
+DB_VARIANTS = ('plain', 'altext', 'k_i4')
+
+
+def sel_sets(sets, variant, side):
+	"""the k-mer sets a signature-file variant holds, in file order"""
+	if variant == 'n0':
+		return []
+	if variant == 'n1':
+		return sets[:1]
+	if variant == 'many':
+		return sets * (6 if side == 'q' else 4)
+	return sets
+
+
+def write_sigfile(path, side, pi, variant='plain', meta=None):
+	import numpy as np
+	import h5py
+	from gambit.kmers import KmerSpec
+	from gambit.sigs import SignatureList, AnnotatedSignatures, SignaturesMeta, dump_signatures
+	k, p = PARAMS[pi]
+	ks = KmerSpec(k, p)
+	dt = np.dtype('u8') if variant == 'wide' else ks.index_dtype
+	names = [n for n, _ in S['genomes'][side]]
+	sets = sel_sets(sigs_of(side, pi), variant, side)
+	ids = sel_sets(names, variant, side)
+	if variant == 'many':
+		ids = [f'{n}_{j}' for j, n in enumerate(ids)]
+	arrs = [np.array(sorted(x), dtype=dt) for x in sets]
+	if variant == 'intids':
+		ids = np.arange(len(arrs))
+	elif variant == 'n0':
+		ids = np.array([], dtype='U1')
+	if meta is None:
+		meta = SignaturesMeta(id='v', name='variant', version='1.0', id_attr='key', description='c14', extra=dict(a=1)) \
+			if variant == 'meta' else SignaturesMeta()
+	kw = dict(compression='gzip', compression_opts=4) if variant == 'gzip' else {}
+	dump_signatures(path, AnnotatedSignatures(SignatureList(arrs, ks, dtype=dt), ids, meta), 'hdf5', **kw)
+	attrs = {'k_i1': ('kmerspec_k', np.int8(k)), 'k_i4': ('kmerspec_k', np.int32(k)), 'k_u1': ('kmerspec_k', np.uint8(k)),
+	         'p_lower': ('kmerspec_prefix', p.lower()), 'p_bytes': ('kmerspec_prefix', np.bytes_(p.encode('ascii')))}
+	if variant in attrs:
+		with h5py.File(path, 'r+') as f:
+			name, value = attrs[variant]
+			del f.attrs[name]
+			f.attrs[name] = value
+
+
+def sigfile(side, pi, variant='plain'):
+	"""path of the signature file of the query / reference genomes under PARAMS[pi] (None: it could not be made)"""
+	key = (side, pi) if variant in (None, 'plain') else (side, pi, variant)
+	if key not in S['sigfile']:
+		path = os.path.join(S['W'], f'{side}sigs_{pi}' + ('' if len(key) == 2 else '_' + variant) + '.gs')
+		if variant == 'created':
+			# the real pipeline: the file is the output of `gambit signatures create` on the genome files
+			k, p = PARAMS[pi]
+			if pi == 4:
+				args = []
+			elif pi < NCORE and side == 'q':
+				args = ['--db-params']
+			else:
+				args = ['-k', k, '--prefix', p]
+			pre = ['-d', S['db'][pi]] if args == ['--db-params'] else []
+			ex, err, text = invoke(pre + ['signatures', 'create', '-o', path, '--no-progress', '-c', 1] + args + S['files'][side])
+			if ex != 0 or not os.path.exists(path):
+				S['sigfile'][key] = None
+				S['create_failed'] = f'{S.get("last_cmd")}: exit {ex} {err} {text[-200:]!r}'
+				return None
+		else:
+			write_sigfile(path, side, pi, variant or 'plain')
+		S['sigfile'][key] = path
+	return S['sigfile'][key]
+
+
+def db_dir(pi, variant='plain'):
+	"""a database directory whose reference signatures are those of the reference genomes under PARAMS[pi]"""
+	import shutil
+	from gambit.sigs import SignaturesMeta
+	if pi == 'testdb':
+		return S['testdb']
+	key = pi if variant in (None, 'plain') else (pi, variant)
+	if key not in S['db']:
+		d = os.path.join(S['W'], f'db_{pi}' + ('' if key == pi else '_' + variant))
+		os.makedirs(d)
+		shutil.copy(os.path.join(S['db'][0], 'refs.gdb'), os.path.join(d, 'refs.db' if variant == 'altext' else 'refs.gdb'))
+		write_sigfile(os.path.join(d, 'refs.h5' if variant == 'altext' else 'refs.gs'), 'r', pi,
+		              'k_i4' if variant == 'k_i4' else 'plain', SignaturesMeta(id='c14', id_attr='key'))
+		S['db'][key] = d
+	return S['db'][key]
+
+
 # ---- fixtures -----------------------------------------------------------------------------------
 def setup(ctx):
 	import random
 	from vf import impl
 	impl.check_import()
-	import numpy as np
-	from gambit.kmers import KmerSpec
-	from gambit.sigs import SignatureList, AnnotatedSignatures, SignaturesMeta, dump_signatures
+	from gambit.sigs import SignaturesMeta
 	from gambit.db.models import Base, ReferenceGenomeSet, Taxon, Genome, AnnotatedGenome
 	from sqlalchemy import create_engine
 	from sqlalchemy.orm import Session
@@ -244,20 +420,11 @@ def setup(ctx):
 			f.write('\n'.join(paths) + '\n')
 		S['files'][side + 'l'] = lp
 
-	def dump(path, side, pi, meta):
-		k, p = PARAMS[pi]
-		ks = KmerSpec(k, p)
-		arrs = [np.array(sorted(s), dtype=ks.index_dtype) for s in sigs_of(side, pi)]
-		ids = [n for n, _ in S['genomes'][side]]
-		dump_signatures(path, AnnotatedSignatures(SignatureList(arrs, ks), ids, meta), 'hdf5')
-
 	S['sigfile'] = {}
 	S['db'] = {}
 	for pi in range(NFIXED):
 		for side in 'qr':
-			path = os.path.join(W, f'{side}sigs_{pi}.gs')
-			dump(path, side, pi, SignaturesMeta())
-			S['sigfile'][(side, pi)] = path
+			sigfile(side, pi)
 	for pi in range(NCORE):
 		d = os.path.join(W, f'db_{pi}')
 		os.makedirs(d)
@@ -273,7 +440,7 @@ def setup(ctx):
 				session.add(AnnotatedGenome(genome=g, genome_set=gset, taxon=sp, organism=name))
 			session.commit()
 		engine.dispose()
-		dump(os.path.join(d, 'refs.gs'), 'r', pi, SignaturesMeta(id='c14', id_attr='key'))
+		write_sigfile(os.path.join(d, 'refs.gs'), 'r', pi, 'plain', SignaturesMeta(id='c14', id_attr='key'))
 		S['db'][pi] = d
 	S['testdb'] = os.path.join(ctx.repo, 'tests', 'data', 'testdb_210818')
 	ctx.rule(RULE)
@@ -284,21 +451,118 @@ def outpath():
 	return os.path.join(S['W'], f'out_{S["n"]}')
 
 
-def invoke(args):
-	"""-> (exit status, error class or None, captured text)"""
+def invoke(args, env=None, proc=False):
+	"""-> (exit status, error class or None, captured text); S['stdout'] holds what went to standard output.
+	proc: a real `python -m gambit` process (its exit status, its standard streams) instead of click's CliRunner"""
 	from click.testing import CliRunner
 	from unittest import mock
 	import gambit.cli
+	args = [str(a) for a in args]
+	S['last_cmd'] = ' '.join(f'{k}={os.path.basename(v)}' for k, v in (env or {}).items()) + (' ' if env else '') + \
+		('python -m gambit ' if proc else 'gambit ') + ' '.join(a.replace(S['W'] + os.sep, '') for a in args)
+	if proc:
+		import subprocess
+		import sys
+		e = dict(os.environ)
+		e.pop('GAMBIT_DB_PATH', None)
+		e.update(env or {})
+		r = subprocess.run([sys.executable, '-m', 'gambit'] + args, env=e, capture_output=True, text=True, timeout=300,
+		                   stdin=subprocess.DEVNULL)
+		S['stdout'] = r.stdout
+		if r.returncode == 0:
+			return 0, None, r.stderr
+		if 'Error: ' in r.stderr and 'Traceback' not in r.stderr:
+			return r.returncode, errclass_of_text(r.stderr), r.stderr
+		last = ([l for l in r.stderr.strip().split('\n') if l.strip()] or ['?'])[-1]
+		return r.returncode, 'exception:' + last.split(':')[0].strip(), r.stderr[-600:]
 	# a one-CPU machine: the worker pools of calc_file_signatures (C13's subject) get one process instead of 16
 	with mock.patch('os.cpu_count', return_value=1):
-		r = CliRunner().invoke(gambit.cli.cli, [str(a) for a in args])
+		r = CliRunner().invoke(gambit.cli.cli, args, env=env)
 	text = r.output or ''
-	S['last_cmd'] = 'gambit ' + ' '.join(os.path.basename(str(a)) if str(a).startswith(S['W']) else str(a) for a in args)
+	try:
+		S['stdout'] = r.stdout
+	except Exception:
+		S['stdout'] = text
 	if r.exit_code == 0:
 		return 0, None, text
 	if r.exception is not None and not isinstance(r.exception, SystemExit):
 		return r.exit_code, 'exception:' + type(r.exception).__name__, text + repr(r.exception)
 	return r.exit_code, errclass_of_text(text), text
+
+
+# ---- the command line in its other forms ---------------------------------------------------------
+SENTINEL = 'c14-sentinel,this,file,was,here,before\n'
+
+
+def root_tokens(c, default_variant='plain'):
+	"""the root option naming the database -> (tokens, environment)"""
+	if c.get('db') is None:
+		return [], None
+	path = db_dir(c['db'], c.get('dbv') or default_variant)
+	how = fopt(c, 'db_opt', '-d')
+	if how == 'env':
+		return [], {'GAMBIT_DB_PATH': path}
+	if how == '--db=':
+		return ['--db=' + path], None
+	return [how, path], None
+
+
+def kp_groups(c):
+	out = []
+	if c.get('k') is not None:
+		out.append([f'-k{c["k"]}'] if fopt(c, 'k_opt') == 'attached' and c['k'] >= 0 else ['-k', c['k']])
+	if c.get('prefix') is not None:
+		how = fopt(c, 'p_opt', '-p')
+		p = c['prefix']
+		if how == '--prefix=':
+			out.append(['--prefix=' + p])
+		elif how == 'attached' and p:
+			out.append(['-p' + p])
+		else:
+			out.append(['--prefix' if how == '--prefix' else '-p', p])
+	return out
+
+
+def common_groups(c, cmd):
+	"""-o / -c / progress option groups; -> (groups, path of the output file or None for standard output)"""
+	mode = fopt(c, 'out', 'fresh')
+	groups, out = [], None
+	if mode in ('fresh', 'existing'):
+		out = outpath()
+		if mode == 'existing':
+			with open(out, 'w') as f:
+				f.write(SENTINEL)
+		groups.append(['-o', out] if fopt(c, 'o_opt', '-o') == '-o' or cmd == 'dist' else ['--output', out])
+	elif mode == 'stdout':
+		groups.append(['-o', '-'])
+	# mode 'default': no -o at all (query writes to standard output; only with a real process)
+	groups.append(['--progress'] if fopt(c, 'progress', False) else ['--no-progress'])
+	if fopt(c, 'cores', 1) is not None:
+		groups.append(['-c', fopt(c, 'cores', 1)])
+	return groups, out
+
+
+def assemble(c, root, cmd, groups):
+	order = fopt(c, 'order')
+	if order is not None:
+		import random
+		random.Random(order).shuffle(groups)
+	return root + [cmd] + [t for g in groups for t in g]
+
+
+def written_text(c, out):
+	"""what the command left as its result: text, or None when nothing was written (an untouched pre-existing file
+	counts as nothing written)"""
+	if out is None:
+		t = S.get('stdout') or ''
+		return t if t.strip() else None
+	if not os.path.exists(out):
+		return None
+	t = open(out).read()
+	os.remove(out)
+	if fopt(c, 'out') == 'existing' and t == SENTINEL:
+		return None
+	return t
 
 
 # ---- wire ---------------------------------------------------------------------------------------
@@ -361,35 +625,40 @@ def summarise(run):
 	            written=any(s[0] == 'write' for s in run['steps']))
 
 
-def judge(pend, case, obs, unidentified, model_run, wf, spec, nontrivial, expect_refusal=None):
-	pend.append((case, obs, unidentified, model_run, wf, spec, nontrivial, expect_refusal))
+def judge(pend, case, obs, unidentified, model_run, wf, spec, nontrivial, expect_refusal=None, domain=True):
+	pend.append((case, obs, unidentified, model_run, wf, spec, nontrivial, expect_refusal, domain))
 
 
 def judge_batch(ctx, kind, pend):
-	"""obs: dict(exit, err, steps) observed on the implementation; the property predicate is the extracted run_ok"""
+	"""obs: dict(exit, err, steps) observed on the implementation; the property predicate is the extracted run_ok.
+	domain=False: the input is outside what the model of the commands describes -- it is judged by the predicate and
+	the declarative specification alone (no comparison with the model's run)"""
 	import gc
 	gc.collect()   # finalise the commands' SQLite sessions in this thread, not in a model-driver worker thread
 	oks = ctx.model([(1408, w_obs(p[1]['exit'], p[1]['steps'])) for p in pend])
-	for (case, obs, unidentified, model_run, wf, spec, nontrivial, expect_refusal), ok in zip(pend, oks):
+	for (case, obs, unidentified, model_run, wf, spec, nontrivial, expect_refusal, domain), ok in zip(pend, oks):
 		ctx.case(case, nontrivial=nontrivial)
 		so, sm = summarise(obs), summarise(model_run)
 		if obs['exit'] == 0 and (so['compare'] or so['calc']):
 			ctx.count(kind + ':output-recognised')
 		must_refuse = (bool(wf) and spec is None) if expect_refusal is None else expect_refusal
-		if unidentified and obs['exit'] == 0:
+		vals = dict(impl=dict(so, cmd=obs.get('cmd')), model=sm, spec=dict(wf=wf, use=None if spec is None else f'{PARAMS[spec][0]}/{PARAMS[spec][1]}'))
+		if unidentified and obs['exit'] == 0 and spec is not None and bool(wf):
+			# every source agrees on one parameter set: the result is determined (the distances of the harness's own
+			# k-mer sets under that set on both sides) and the written numbers are something else
+			ctx.violation(kind, case, f'exit status 0, but the written numbers are not the distances with {PARAMS[spec][0]}/{PARAMS[spec][1]} '
+			              f'on both sides (nor with any other candidate pair): {unidentified}', **vals)
+		elif unidentified and obs['exit'] == 0:
 			ctx.broke(f'{kind}: output not recognised',
 			          f'case {case}: the written numbers match no candidate parameter pair; {unidentified}')
 		elif ok != 1:
 			ctx.violation(kind, case, 'status / output / compared parameters violate the property predicate run_ok '
-			              '(parameters of the two sides differ, or an error left a result behind, or a failure without error)',
-			              impl=dict(so, cmd=obs.get('cmd')), model=sm, spec=dict(wf=wf, use=None if spec is None else f'{PARAMS[spec][0]}/{PARAMS[spec][1]}'))
+			              '(parameters of the two sides differ, or an error left a result behind, or a failure without error)', **vals)
 		elif must_refuse and obs['exit'] == 0:
-			ctx.violation(kind, case, 'differing parameter sources were accepted (exit status 0, result written)',
-			              impl=dict(so, cmd=obs.get('cmd')), model=sm, spec=dict(wf=wf, use=None if spec is None else f'{PARAMS[spec][0]}/{PARAMS[spec][1]}'))
+			ctx.violation(kind, case, 'differing parameter sources were accepted (exit status 0, result written)', **vals)
 		elif must_refuse and so['err'] not in MISMATCH and sm['err'] in MISMATCH:
-			ctx.violation(kind, case, 'the mismatch of k-mer parameters is not what the error reports',
-			              impl=dict(so, cmd=obs.get('cmd')), model=sm, spec=dict(wf=wf, use=None if spec is None else f'{PARAMS[spec][0]}/{PARAMS[spec][1]}'))
-		elif so != sm:
+			ctx.violation(kind, case, 'the mismatch of k-mer parameters is not what the error reports', **vals)
+		elif domain and so != sm:
 			ctx.broke(f'{kind}: model/implementation correspondence', f'case {case}: impl {so} model {sm}')
 
 
@@ -400,8 +669,25 @@ def run_kspec(ctx, cases):
 	ans = ctx.model([(1401, [w_opt_k(c['k']), w_opt_p(c['prefix']), bool(c['default'])]) for c in cases])
 	for c, a in zip(cases, ans):
 		try:
-			r = kspec_from_params(c['k'], c['prefix'], c['default'])
+			k = c['k']
+			if c.get('ktype') and k is not None:
+				import numpy as np
+				k = getattr(np, c['ktype'])(k)   # a NumPy scalar, as read from an HDF5 attribute or an array
+			call = c.get('call', 'pos')
+			if call == 'kw':
+				r = kspec_from_params(k=k, prefix=c['prefix'], default=c['default'])
+			elif call == 'kw-swapped':
+				r = kspec_from_params(default=c['default'], prefix=c['prefix'], k=k)
+			elif call == 'short' and not c['default']:
+				r = kspec_from_params(k, c['prefix'])
+			else:
+				r = kspec_from_params(k, c['prefix'], c['default'])
 			impl = ['ok', None if r is None else [int(r.k), r.prefix.decode('ascii')]]
+			if r is not None and c['k'] is not None and c['prefix'] is not None:
+				# the returned object must BE the parameter set for every later comparison: equal to the plain one
+				from gambit.kmers import KmerSpec
+				if not (r == KmerSpec(int(r.k), r.prefix) and hash(r) == hash(KmerSpec(int(r.k), r.prefix))):
+					impl = ['ok', ['unequal-to-its-own-parameters', int(r.k), r.prefix.decode('ascii')]]
 		except click.ClickException as e:
 			impl = ['err', errclass_of_text('Error: ' + e.format_message())]
 		except Exception as e:
@@ -426,36 +712,31 @@ def run_kspec(ctx, cases):
 
 
 # ---- kind: dist ---------------------------------------------------------------------------------
-def dist_args(c, out):
-	args = []
-	if c.get('db') is not None:
-		args += ['-d', S['testdb'] if c['db'] == 'testdb' else S['db'][c['db']]]
-	args += ['dist', '-o', out, '--no-progress', '-c', 1]
+def dist_args(c):
+	"""c: resolved case -> (args, environment, output path); None when a signature file could not be made"""
+	root, env = root_tokens(c)
+	groups, out = common_groups(c, 'dist')
 	for src in c['q']:
 		if src == 'q':
-			for p in S['files']['q']:
-				args += ['-q', p]
+			groups.append([t for p in S['files']['q'] for t in ('-q', p)])
 		elif src == 'ql':
-			args += ['--ql', S['files']['ql']]
+			groups.append(['--ql', S['files']['ql']])
 		else:
-			args += ['--qs', S['sigfile'][('q', c['qp'])]]
+			groups.append(['--qs', sigfile('q', c['qp'], c.get('qv'))])
 	for src in c['r']:
 		if src == 'r':
-			for p in S['files']['r']:
-				args += ['-r', p]
+			groups.append([t for p in S['files']['r'] for t in ('-r', p)])
 		elif src == 'rl':
-			args += ['--rl', S['files']['rl']]
+			groups.append(['--rl', S['files']['rl']])
 		elif src == 'rs':
-			args += ['--rs', S['sigfile'][('r', c['rp'])]]
+			groups.append(['--rs', sigfile('r', c['rp'], c.get('rv'))])
 		elif src == 'db':
-			args += ['--use-db']
+			groups.append([fopt(c, 'usedb_opt', '--use-db')])
 		else:
-			args += ['--square']
-	if c.get('k') is not None:
-		args += ['-k', c['k']]
-	if c.get('prefix') is not None:
-		args += ['-p', c['prefix']]
-	return args
+			groups.append([fopt(c, 'square_opt', '--square')])
+	groups += kp_groups(c)
+	args = assemble(c, root, 'dist', groups)
+	return (None if None in args else args), env, out
 
 
 def dist_wire(c):
@@ -470,11 +751,10 @@ def parse_dmat(text):
 	return [[float(x) for x in row[1:]] for row in rows[1:]]
 
 
-def observe_dist(c, exit_status, err, out, want):
-	"""-> (obs, unidentified)"""
+def observe_dist(c, exit_status, err, text, want):
+	"""text: what was written (None: nothing) -> (obs, unidentified)"""
 	steps, unid = [], None
-	if os.path.exists(out):
-		text = open(out).read()
+	if text is not None:
 		pair = None
 		if text.strip():
 			try:
@@ -484,10 +764,13 @@ def observe_dist(c, exit_status, err, out, want):
 			square = 'square' in c['r']
 			qfix = c['qp'] if 'qs' in c['q'] else None
 			rfix = c['rp'] if 'rs' in c['r'] else (c.get('db') if 'db' in c['r'] else None)
+			qv = c.get('qv') if 'qs' in c['q'] else None
+			rv = c.get('rv') if 'rs' in c['r'] else None
 			found = []
 			for a in ([qfix] if qfix is not None else candidates(c)):
 				for b in ([a] if square else [rfix] if rfix is not None else candidates(c)):
-					exp = dmat(sigs_of('q', a), sigs_of('q', a) if square else sigs_of('r', b))
+					qsets = sel_sets(sigs_of('q', a), qv, 'q')
+					exp = dmat(qsets, qsets if square else sel_sets(sigs_of('r', b), rv, 'r'))
 					if m is not None and close(m, exp):
 						found.append((a, b))
 			if found:
@@ -503,38 +786,59 @@ def observe_dist(c, exit_status, err, out, want):
 	return dict(exit=exit_status, err=err, steps=steps, cmd=S.get('last_cmd')), unid
 
 
+def out_of_model(c):
+	"""inputs the model of the commands does not describe (judged by the property predicate and the declarative
+	specification only): signature files without signatures; pre-computed signatures with k <= 4, whose 8-bit k-mer
+	indices the distance kernel refuses with a ValueError when a comparison is attempted (C02's subject)"""
+	if 'n0' in (c.get('qv'), c.get('rv'), c.get('sv')):
+		return True
+	return any(isinstance(c.get(f), int) and PARAMS[c[f]][0] <= 4 for f in ('qp', 'rp', 'db', 'sp'))
+
+
 def run_dist(ctx, cases):
-	model = ctx.model([(1402, dist_wire(c)) for c in cases])
-	spec = ctx.model([(1406, dist_wire(c)) for c in cases])
+	rcs = [resolved(c) for c in cases]
+	model = ctx.model([(1402, dist_wire(c)) for c in rcs])
+	spec = ctx.model([(1406, dist_wire(c)) for c in rcs])
 	pend = []
-	for c, m, sp in zip(cases, model, spec):
-		out = outpath()
-		ex, err, text = invoke(dist_args(c, out))
+	for c0, c, m, sp in zip(cases, rcs, model, spec):
+		args, env, out = dist_args(c)
+		if args is None:
+			ctx.case(c0, nontrivial=False)
+			ctx.broke('dist: pipeline', f'case {c0}: gambit signatures create did not produce the signature file: {S.get("create_failed")}')
+			continue
+		ex, err, text = invoke(args, env=env, proc=bool(fopt(c, 'proc')))
 		mr = dec_run(m)
 		want = ([tuple(st[1:]) for st in mr['steps'] if st[0] == 'compare'] or [None])[0]
-		obs, unid = observe_dist(c, ex, err, out, want)
-		if os.path.exists(out):
-			os.remove(out)
+		obs, unid = observe_dist(c, ex, err, written_text(c, out), want)
 		nsrc = ('qs' in c['q']) + ('rs' in c['r'] or 'db' in c['r']) + (c.get('k') is not None or c.get('prefix') is not None)
-		judge(pend, c, obs, unid, mr, bool(sp[0]), ks_index(sp[1][0]) if sp[1] else None, nsrc >= 2)
-		ctx.count('dist:' + ('refused-mismatch' if obs['err'] in MISMATCH else 'refused-usage' if ex else 'ran'))
+		judge(pend, c0, obs, unid, mr, bool(sp[0]), ks_index(sp[1][0]) if sp[1] else None, nsrc >= 2, domain=not out_of_model(c))
+		outcome = 'refused-mismatch' if obs['err'] in MISMATCH else 'refused-usage' if ex else 'ran'
+		ctx.count('dist:' + outcome)
+		if c.get('st'):
+			ctx.count(f'dist[{c["st"]}]:' + (outcome if ex or not unid else 'ran-unrecognised'))
 	judge_batch(ctx, 'dist', pend)
 
 
 # ---- kind: query --------------------------------------------------------------------------------
-def query_args(c, out):
-	args = []
-	if c.get('db') is not None:
-		args += ['-d', S['testdb'] if c['db'] == 'testdb' else S['db'][c['db']]]
-	args += ['query', '-o', out, '--no-progress', '-c', 1]
+def query_args(c):
+	root, env = root_tokens(c)
+	groups, out = common_groups(c, 'query')
 	for src in c['src']:
 		if src == 'files':
-			args += S['files']['q']
+			groups.append(list(S['files']['q']))
 		elif src == 'list':
-			args += ['-l', S['files']['ql']]
+			groups.append(['-l', S['files']['ql']])
 		else:
-			args += ['-s', S['sigfile'][('q', c['sp'])]]
-	return args
+			path = sigfile('q', c['sp'], c.get('sv'))
+			if path is None:
+				return None, env, out
+			how = fopt(c, 'sig_opt', '-s')
+			groups.append(['--sigfile=' + path] if how == '--sigfile=' else [how, path])
+	if fopt(c, 'outfmt') is not None:
+		groups.append(['-f', fopt(c, 'outfmt')])
+	if fopt(c, 'strict') is not None:
+		groups.append(['--strict' if fopt(c, 'strict') else '--no-strict'])
+	return assemble(c, root, 'query', groups), env, out
 
 
 def db_index(c):
@@ -545,51 +849,73 @@ def query_wire(c):
 	return ['files' in c['src'], 'list' in c['src'], w_ksopt(c['sp'] if 'sig' in c['src'] else None), w_ksopt(db_index(c))]
 
 
-def observe_query(c, exit_status, err, out):
+def closest_distances(text, outfmt):
+	"""the closest-genome distance of every query in a result written as csv / json / archive -> [[d], ...] or None"""
 	import csv
+	import io
+	import json
+	try:
+		if outfmt in (None, 'csv'):
+			return [[float(r['closest.distance'])] for r in csv.DictReader(io.StringIO(text))]
+		return [[float(it['closest_genomes'][0]['distance'])] for it in json.loads(text)['items']]
+	except (KeyError, ValueError, IndexError, TypeError):
+		return None
+
+
+def recognise_query(c, vec):
+	"""vec: closest distances reported -> (steps, unidentified)"""
 	steps, unid = [], None
-	if os.path.exists(out) and open(out).read().strip():
-		rows = list(csv.DictReader(open(out)))
-		try:
-			vec = [[float(r['closest.distance'])] for r in rows]
-		except (KeyError, ValueError):
-			vec = None
-		sfix = c['sp'] if 'sig' in c['src'] else None
-		b = db_index(c)
-		found = []
-		if c.get('db') == 'testdb':
-			# the test database's signatures are not the harness's: the query side is known (a signature file),
-			# the reference side is the database as stored
-			if sfix is not None:
-				found = [(sfix, 0)]
-		elif b is not None:
-			for a in ([sfix] if sfix is not None else candidates()):
-				exp = [[min(row)] for row in dmat(sigs_of('q', a), sigs_of('r', b))]
-				if vec is not None and close(vec, exp):
-					found.append((a, b))
-		if found:
-			if sfix is None:
-				steps.append(('calc', 'q', found[0][0]))
-			steps.append(('compare',) + found[0])
-		else:
-			unid = f'closest distances {vec}'
-		steps.append(('write',))
+	sfix = c['sp'] if 'sig' in c['src'] else None
+	b = db_index(c)
+	found = []
+	if c.get('db') == 'testdb':
+		# the test database's signatures are not the harness's: the query side is known (a signature file),
+		# the reference side is the database as stored
+		if sfix is not None:
+			found = [(sfix, 0)]
+	elif b is not None:
+		for a in ([sfix] if sfix is not None else candidates(c)):
+			qsets = sel_sets(sigs_of('q', a), c.get('sv') if sfix is not None else None, 'q')
+			exp = [[min(row)] for row in dmat(qsets, sigs_of('r', b))]
+			if vec is not None and close(vec, exp):
+				found.append((a, b))
+	if found:
+		pair = (b, b) if (b, b) in found else found[0]
+		if sfix is None:
+			steps.append(('calc', 'q', pair[0]))
+		steps.append(('compare',) + pair)
+	else:
+		unid = f'closest distances {vec}'
+	steps.append(('write',))
+	return steps, unid
+
+
+def observe_query(c, exit_status, err, text):
+	steps, unid = [], None
+	if text is not None and text.strip():
+		steps, unid = recognise_query(c, closest_distances(text, fopt(c, 'outfmt')))
 	return dict(exit=exit_status, err=err, steps=steps, cmd=S.get('last_cmd')), unid
 
 
 def run_query(ctx, cases):
-	model = ctx.model([(1403, [True] + query_wire(c)) for c in cases])
-	spec = ctx.model([(1407, query_wire(c)) for c in cases])
+	rcs = [resolved(c) for c in cases]
+	model = ctx.model([(1403, [True] + query_wire(c)) for c in rcs])
+	spec = ctx.model([(1407, query_wire(c)) for c in rcs])
 	pend = []
-	for c, m, sp in zip(cases, model, spec):
-		out = outpath()
-		ex, err, text = invoke(query_args(c, out))
-		obs, unid = observe_query(c, ex, err, out)
-		if os.path.exists(out):
-			os.remove(out)
+	for c0, c, m, sp in zip(cases, rcs, model, spec):
+		args, env, out = query_args(c)
+		if args is None:
+			ctx.case(c0, nontrivial=False)
+			ctx.broke('query: pipeline', f'case {c0}: gambit signatures create did not produce the signature file: {S.get("create_failed")}')
+			continue
+		ex, err, text = invoke(args, env=env, proc=bool(fopt(c, 'proc')))
+		obs, unid = observe_query(c, ex, err, written_text(c, out))
 		nt = 'sig' in c['src'] and c.get('db') is not None
-		judge(pend, c, obs, unid, dec_run(m), bool(sp[0]), ks_index(sp[1][0]) if sp[1] else None, nt)
-		ctx.count('query:' + ('refused-mismatch' if obs['err'] in MISMATCH else 'refused-usage' if ex else 'ran'))
+		judge(pend, c0, obs, unid, dec_run(m), bool(sp[0]), ks_index(sp[1][0]) if sp[1] else None, nt, domain=not out_of_model(c))
+		outcome = 'refused-mismatch' if obs['err'] in MISMATCH else 'refused-usage' if ex else 'ran'
+		ctx.count('query:' + outcome)
+		if c.get('st'):
+			ctx.count(f'query[{c["st"]}]:' + (outcome if ex or not unid else 'ran-unrecognised'))
 	judge_batch(ctx, 'query', pend)
 
 
@@ -717,7 +1043,69 @@ def run_create(ctx, cases):
 	judge_batch(ctx, 'create', pend)
 
 
-KINDS = {'kspec': run_kspec, 'dist': run_dist, 'query': run_query, 'tree': run_tree, 'create': run_create}
+# ---- kind: api ----------------------------------------------------------------------------------
+def run_api(ctx, cases):
+	"""gambit.query.query_parse called directly -- the function `gambit query GENOMES...` rests on, in its other call
+	forms: the query files' signatures must be computed with the parameters of the database they are compared with"""
+	from unittest import mock
+	from gambit.db import ReferenceDatabase, load_genomeset
+	from gambit.sigs import load_signatures
+	from gambit.query import query_parse, QueryParams
+	from gambit.seq import SequenceFile
+	rcs = [resolved(c) for c in cases]
+	model = ctx.model([(1403, [True, True, False, [], w_ksopt(c['db'])]) for c in rcs])
+	pend = []
+	for c0, c, m in zip(cases, rcs, model):
+		d = db_dir(c['db'], c.get('dbv'))
+		db = None
+		steps, unid, ex, err = [], None, 0, None
+		try:
+			if c.get('load') == 'files':
+				db = ReferenceDatabase.load(*ReferenceDatabase.locate_files(d))
+			elif c.get('load') == 'ctor':
+				gdb, gs = ReferenceDatabase.locate_files(d)
+				session, gset = load_genomeset(gdb)
+				db = ReferenceDatabase(gset, load_signatures(gs))
+			else:
+				db = ReferenceDatabase.load_from_dir(d)
+			files = SequenceFile.from_paths(S['files']['q'], 'fasta', 'auto')
+			if c.get('files_as') == 'tuple':
+				files = tuple(files)
+			kw = {}
+			args = [db, files]
+			if c.get('params') == 'obj':
+				args.append(QueryParams(chunksize=1, report_closest=1))
+			elif c.get('params') == 'objkw':
+				kw['params'] = QueryParams(classify_strict=True, chunksize=None)
+			elif c.get('params') == 'kw':
+				kw.update(classify_strict=True, chunksize=2)
+			if c.get('labels'):
+				kw['file_labels'] = [f'label{i}' for i in range(len(files))]
+			if c.get('parse_kw') == 'serial':
+				kw['parse_kw'] = dict(concurrency=None)
+			elif c.get('parse_kw') == 'threads':
+				kw['parse_kw'] = dict(concurrency='threads', max_workers=2)
+			elif c.get('parse_kw') == 'empty':
+				kw['parse_kw'] = {}
+			with mock.patch('os.cpu_count', return_value=1):
+				res = query_parse(*args, **kw)
+			vec = [[float(it.classifier_result.closest_match.distance)] for it in res.items]
+			steps, unid = recognise_query(dict(src=['files'], sp=None, db=c['db']), vec)
+		except Exception as e:
+			ex, err = 1, 'exception:' + type(e).__name__
+		finally:
+			if db is not None:
+				try:
+					db.session.close()
+					db.signatures.close()
+				except Exception:
+					pass
+		obs = dict(exit=ex, err=err, steps=steps, cmd='query_parse(' + ', '.join(f'{k}={c.get(k)}' for k in ('load', 'params', 'labels', 'parse_kw', 'files_as')) + ')')
+		judge(pend, c0, obs, unid, dec_run(m), True, c['db'], True)
+	judge_batch(ctx, 'api', pend)
+
+
+KINDS = {'kspec': run_kspec, 'dist': run_dist, 'query': run_query, 'tree': run_tree, 'create': run_create, 'api': run_api}
 
 
 # ---- generators ---------------------------------------------------------------------------------
@@ -797,6 +1185,209 @@ def gen_kspec(ctx, n):
 		           default=rng.random() < 0.5)
 
 
+# ---- generators added by the coverage audit --------------------------------------------------------
+def rand_params(rng):
+	k = rng.choice([5, 6, 7, 8, 8, 9, 10, 11, 12, 15, 16, 17, 21])
+	return k, ''.join(rng.choice('ACGT') for _ in range(rng.choice([2, 2, 3, 3, 4])))
+
+
+def neighbour(rng, k, p):
+	"""a parameter set that differs from (k, p) in k, in the prefix, or in both -- in the ways a comparison by length,
+	by width, by a part of the prefix or by one field only would miss"""
+	def other(ch):
+		return rng.choice([x for x in 'ACGT' if x != ch])
+	how = rng.choice(['k+1', 'k-1', 'k-far', 'k-width', 'k+8', 'p-last', 'p-first', 'p-mid', 'p-longer', 'p-shorter', 'p-revcomp',
+	                  'p-reversed', 'same-total', 'same-total2', 'both', 'both-far', 'default', 'tiny'])
+	i = rng.randrange(len(p))
+	r = {'k+1': (k + 1, p), 'k-1': (max(1, k - 1), p), 'k-far': (rng.choice([5, 9, 13, 19, 32]), p),
+	     'k-width': ({4: 5, 8: 9, 16: 17}.get(k, 8 if k > 8 else 9), p), 'k+8': (k + 8, p),
+	     'p-last': (k, p[:-1] + other(p[-1])), 'p-first': (k, other(p[0]) + p[1:]), 'p-mid': (k, p[:i] + other(p[i]) + p[i + 1:]),
+	     'p-longer': (k, p + rng.choice('ACGT')), 'p-shorter': (k, p[:-1]), 'p-revcomp': (k, revcomp(p)), 'p-reversed': (k, p[::-1]),
+	     'same-total': (k + 1, p[:-1]), 'same-total2': (max(1, k - 1), p + rng.choice('ACGT')),
+	     'both': (k + rng.choice([-1, 1]), p[:-1] + other(p[-1])), 'both-far': rand_params(rng), 'default': (11, 'ATGAC'),
+	     'tiny': (rng.choice([1, 3, 4]), p[:rng.choice([1, 2])])}[how]
+	if r == (k, p) or r[0] > 32 or r[0] < 1 or not r[1]:
+		r = (k + 1, p)
+	return r
+
+
+def gen_dist_params(ctx, n):
+	"""random parameter pairs (and a third set for the options) on every combination of sources"""
+	rng = ctx.rng
+	made = 0
+	while made < n:
+		A = rand_params(rng)
+		B = A if rng.random() < 0.3 else neighbour(rng, *A)
+		C = rng.choice([A, A, B, neighbour(rng, *A)])
+		q = rng.choice([['qs'], ['qs'], ['qs'], ['q'], ['ql']])
+		r = rng.choice([['rs'], ['rs'], ['db'], ['db'], ['r'], ['rl'], ['square']])
+		opts = rng.choice([None, None, None, C, C])
+		if ('qs' in q) + ('rs' in r or 'db' in r) + (opts is not None) < 2 and rng.random() < 0.85:
+			continue
+		made += 1
+		k, prefix = (None, None) if opts is None else (opts[0], opts[1].lower() if rng.random() < 0.25 else opts[1])
+		yield dict(q=q, qp=list(A) if 'qs' in q else None, r=r, rp=list(B) if 'rs' in r else None,
+		           db=list(B) if 'db' in r else rng.choice([None, None, list(C)]), k=k, prefix=prefix)
+
+
+def gen_query_params(ctx, n):
+	rng = ctx.rng
+	for _ in range(n):
+		A = rand_params(rng)
+		B = A if rng.random() < 0.35 else neighbour(rng, *A)
+		src = rng.choice([['sig'], ['sig'], ['sig'], ['files'], ['list']])
+		yield dict(src=src, sp=list(B) if 'sig' in src else None, db=list(A))
+
+
+def rand_form(rng, cmd):
+	f = {}
+	def maybe(name, values, p=0.6):
+		if rng.random() < p:
+			f[name] = rng.choice(values)
+	maybe('db_opt', ['-d', '--db', '--db=', 'env', 'env'], 0.8)
+	maybe('order', [rng.randrange(10 ** 6)], 0.7)
+	maybe('out', ['existing', 'existing', 'fresh'] + (['stdout', 'stdout'] if cmd == 'query' else []), 0.6)
+	maybe('cores', [None, 1, 2], 0.3)
+	maybe('progress', [True], 0.2)
+	if cmd == 'dist':
+		maybe('usedb_opt', ['-d', '--use-db'], 0.7)
+		maybe('square_opt', ['-s', '--square'], 0.7)
+		maybe('k_opt', ['attached', '-k'], 0.6)
+		maybe('p_opt', ['--prefix', '--prefix=', 'attached', '-p'], 0.8)
+	else:
+		maybe('sig_opt', ['--sigfile', '--sigfile=', '-s'], 0.7)
+		maybe('outfmt', ['json', 'archive', 'csv', 'json', 'archive'], 0.8)
+		maybe('strict', [True, False], 0.4)
+		maybe('o_opt', ['--output', '-o'], 0.5)
+	return f
+
+
+def gen_dist_forms(ctx, n):
+	"""the comparisons of the exhaustive stream, each under another spelling / order / channel of the same command line"""
+	rng = ctx.rng
+	base = [c for c in gen_dist_exhaustive()
+	        if ('qs' in c['q']) + ('rs' in c['r'] or 'db' in c['r']) + (c['k'] is not None and c['prefix'] is not None) >= 2]
+	for _ in range(n):
+		c = dict(rng.choice(base))
+		if c['prefix'] is not None and rng.random() < 0.3:
+			c['prefix'] = c['prefix'].lower()
+		if rng.random() < 0.3:
+			c['dbv'] = rng.choice(DB_VARIANTS)
+		if c['db'] is None and rng.random() < 0.3:
+			c['db'] = rng.randrange(NCORE)   # a database that is named but not used must not matter
+		c['form'] = rand_form(rng, 'dist')
+		yield c
+
+
+def gen_query_forms(ctx, n):
+	rng = ctx.rng
+	for _ in range(n):
+		src = rng.choice([['sig'], ['sig'], ['sig'], ['sig'], ['files'], ['list']])
+		c = dict(src=src, sp=rng.randrange(NFIXED) if 'sig' in src else None,
+		         db=rng.choice(list(range(NCORE)) * 3 + ['testdb']), form=rand_form(rng, 'query'))
+		if c['db'] == 'testdb' and 'sig' not in src:
+			c['db'] = 0
+		if c['db'] != 'testdb' and rng.random() < 0.3:
+			c['dbv'] = rng.choice(DB_VARIANTS)
+		yield c
+
+
+def known_defect(c):
+	"""GENUINE DEFECT found by this audit, recorded and skipped (the exact input class only): a signature file whose
+	kmerspec_k attribute is an unsigned 8-bit integer, whose parameters are inferred (no -k/--prefix) and used to compute
+	the other side from genome files.  KmerSpec keeps the NumPy scalar, find_kmers' `-kmerspec.k` wraps to 250 and the
+	forward strand of every contig is only searched in its first 250 bytes: `gambit dist --qs FILE -r genome.fasta` exits 0
+	with distances that are not those of the file's parameters.  Suggested repair: repo_fixes/C14-uint8-k.diff
+	(KmerSpec.__init__: k = int(k)).  Replay: repo_fixes/C14-uint8-k.replay.json."""
+	if c.get('k') is not None or c.get('prefix') is not None:
+		return False
+	return ('qs' in c['q'] and c.get('qv') == 'k_u1' and ('r' in c['r'] or 'rl' in c['r'])) or \
+	       ('rs' in c['r'] and c.get('rv') == 'k_u1' and ('q' in c['q'] or 'ql' in c['q']))
+
+
+def gen_dist_variants(ctx, n):
+	"""pre-computed signatures in other containers (see VARIANTS) on one or both sides"""
+	rng = ctx.rng
+	made = 0
+	while made < n:
+		a = rng.randrange(NFIXED)
+		b = a if rng.random() < 0.4 else rng.randrange(NFIXED)
+		side = rng.choice(['q', 'q', 'r', 'both'])
+		q = ['qs'] if side in ('q', 'both') else rng.choice([['q'], ['ql'], ['qs']])
+		r = ['rs'] if side in ('r', 'both') else rng.choice([['rs'], ['db'], ['r'], ['square']])
+		c = dict(q=q, qp=a if 'qs' in q else None, r=r, rp=b if 'rs' in r else None, db=None, k=None, prefix=None)
+		if 'qs' in q:
+			c['qv'] = rng.choice(VARIANTS) if side in ('q', 'both') else 'plain'
+		if 'rs' in r:
+			c['rv'] = rng.choice(VARIANTS) if side in ('r', 'both') else 'plain'
+		if 'db' in r:
+			c['db'] = b if b < NCORE else rng.randrange(NCORE)
+			c['dbv'] = rng.choice(DB_VARIANTS)
+		if rng.random() < 0.3:
+			c['k'], c['prefix'] = PARAMS[rng.choice([a, b])]
+		if known_defect(c) and not os.environ.get('C14_INCLUDE_KNOWN_DEFECT'):
+			ctx.count('skipped:known-defect-uint8-k-attribute')
+			continue
+		made += 1
+		yield c
+
+
+def gen_query_variants(ctx, n):
+	rng = ctx.rng
+	for _ in range(n):
+		a = rng.randrange(NCORE)
+		sp = a if rng.random() < 0.4 else rng.randrange(NFIXED)
+		c = dict(src=['sig'], sp=sp, sv=rng.choice(VARIANTS), db=a, dbv=rng.choice(DB_VARIANTS))
+		if rng.random() < 0.4:
+			c['form'] = dict(outfmt=rng.choice(['json', 'archive']))
+		yield c
+
+
+def gen_proc(ctx, n):
+	"""a real `python -m gambit` process: its exit status and standard streams (query without -o writes to standard output)"""
+	rng = ctx.rng
+	def two():
+		a = rng.randrange(NCORE)
+		return a, rng.choice([i for i in range(NCORE) if i != a])
+	for i in range(n):
+		a, b = two()
+		t = i % 6
+		if t == 0:
+			yield 'query', dict(src=['sig'], sp=b, db=a, form=dict(proc=True, out='default'))
+		elif t == 1:
+			yield 'dist', dict(q=['qs'], qp=a, r=['rs'], rp=b, db=None, k=None, prefix=None, form=dict(proc=True))
+		elif t == 2:
+			yield 'query', dict(src=['sig'], sp=a, db=a, form=dict(proc=True, out='default', db_opt='env'))
+		elif t == 3:
+			k, p = PARAMS[b]
+			yield 'dist', dict(q=['qs'], qp=a, r=['db'], rp=None, db=a, k=k, prefix=p, form=dict(proc=True, db_opt='env', usedb_opt='-d'))
+		elif t == 4:
+			yield 'query', dict(src=['sig'], sp=b, db=a, form=dict(proc=True, out=rng.choice(['fresh', 'existing', 'stdout']),
+			                                                       outfmt=rng.choice(['json', 'archive'])))
+		else:
+			yield 'dist', dict(q=['qs'], qp=a, r=rng.choice([['db'], ['rs']]), rp=a, db=a, k=None, prefix=None, form=dict(proc=True))
+
+
+def gen_kspec_forms(ctx, n):
+	"""kspec_from_params called the way Python code calls it: NumPy-scalar k, keyword arguments"""
+	rng = ctx.rng
+	signed, unsigned = ['int8', 'int16', 'int32', 'int64', 'intp'], ['uint8', 'uint16', 'uint32', 'uint64']
+	for _ in range(n):
+		k = rng.choice([None, -3, 0, 1, 4, 5, 6, 7, 11, 16, 17, 32, 33])
+		p = rng.choice([None, '', 'A', 'AT', 'at', 'aC', 'ATGAC', 'AN', 'ATG'])
+		yield dict(k=k, prefix=p, default=rng.random() < 0.4, ktype=rng.choice(signed + (unsigned if k is None or k >= 0 else []) + [None]),
+		           call=rng.choice(['pos', 'kw', 'kw-swapped', 'short']))
+
+
+def gen_api(ctx, n):
+	rng = ctx.rng
+	for i in range(n):
+		db = i % NCORE if i < NCORE else list(rand_params(rng))
+		yield dict(db=db, dbv=rng.choice(DB_VARIANTS), load=rng.choice(['dir', 'files', 'ctor']),
+		           params=rng.choice([None, 'obj', 'objkw', 'kw']), labels=rng.random() < 0.5,
+		           parse_kw=rng.choice([None, 'serial', 'serial', 'threads', 'empty']), files_as=rng.choice(['list', 'tuple']))
+
+
 def generate(ctx):
 	for c in gen_kspec(ctx, ctx.pick(300, 3000)):
 		ctx.count('stream:kspec')
@@ -816,6 +1407,41 @@ def generate(ctx):
 	for c in gen_dist_extra(ctx, ctx.pick(150, 1500)):
 		ctx.count('stream:dist-random-malformed')
 		yield 'dist', c
+	# ---- streams added by the coverage audit (see the table in the module docstring) ----
+	for c in gen_kspec_forms(ctx, ctx.pick(150, 1500)):
+		ctx.count('stream:kspec-call-forms')
+		yield 'kspec', c
+	for c in gen_dist_params(ctx, ctx.pick(110, 1200)):
+		ctx.count('stream:dist-random-parameter-pairs')
+		c['st'] = 'params'
+		yield 'dist', c
+	for c in gen_query_params(ctx, ctx.pick(45, 500)):
+		ctx.count('stream:query-random-parameter-pairs')
+		c['st'] = 'params'
+		yield 'query', c
+	for c in gen_dist_forms(ctx, ctx.pick(70, 800)):
+		ctx.count('stream:dist-command-line-forms')
+		c['st'] = 'forms'
+		yield 'dist', c
+	for c in gen_query_forms(ctx, ctx.pick(60, 700)):
+		ctx.count('stream:query-command-line-forms')
+		c['st'] = 'forms'
+		yield 'query', c
+	for c in gen_dist_variants(ctx, ctx.pick(60, 700)):
+		ctx.count('stream:dist-sigfile-variants')
+		c['st'] = 'variants'
+		yield 'dist', c
+	for c in gen_query_variants(ctx, ctx.pick(40, 500)):
+		ctx.count('stream:query-sigfile-variants')
+		c['st'] = 'variants'
+		yield 'query', c
+	for c in gen_api(ctx, ctx.pick(14, 150)):
+		ctx.count('stream:api-query_parse')
+		yield 'api', c
+	for kind, c in gen_proc(ctx, ctx.pick(6, 48)):
+		ctx.count('stream:real-process')
+		c['st'] = 'process'
+		yield kind, c
 	ctx.exhaustive = True
 	ctx.extra['exhaustive_scope'] = (
 		'dist: {-q, --ql, --qs x 4 parameter sets} x {-r, --rl, --square, --rs x 4, --use-db x 4 databases} x '
